@@ -1,13 +1,57 @@
-(* C01 — stream semantics of every construct.  (theorems are added below as
-   the engine proofs land; this first version only pins the model down with
-   executable examples) *)
+(* C01 — each construct acts on every input stack independently (stream semantics).
+
+   Engine side, proved here for the model of the pull engine (zw/Engine.v) over
+   the ops of concatenation, `,` (op_merge/op_tine), `||`, `[ ]`, let / infix
+   (op_subx), if-then-else, assertions, words, bindings and closure creation:
+   whatever stacks a chain has processed, once it reports exhaustion every op
+   of it is in exactly the state it was constructed in.  The ops of `*`/`+`,
+   format strings and `apply` are outside this theorem (their model is tied to
+   the implementation and to the specification by the correspondence check
+   only); so is the equality engine = specification (Den.v), which the check
+   tests on generated programs. *)
 From Coq Require Import ZArith NArith List Bool String.
-From Dwgrep Require Import Radix Value Words Tree Engine Build.
+From Dwgrep Require Import Radix Value Words Tree Engine Build EngineProofs.
 Import ListNotations.
 Local Open Scope Z_scope.
 
+(* one pull keeps a working chain a working chain, and a pull that returns
+   nothing leaves it pristine -- for every amount of fuel, environment, store,
+   leaf context (an origin, or a branch of `,` at any nesting) *)
+Theorem C01_pull_invariant : forall P blks f env m c s r m' c' s' e,
+  inv m -> cinv c -> nodone c -> next P blks f env m c s = Ret (r, m', c', s', e) ->
+  inv m' /\ cinv c' /\ shape c c' /\ cpost c' (isnone r) /\ (r = None -> quiet m').
+Proof. exact main. Qed.
+
+(* a pull changes run-time state only: the constructed chain underneath is the same *)
+Theorem C01_pull_keeps_structure : forall P blks f env m c s r m' c' s' e,
+  inv m -> cinv c -> nodone c -> next P blks f env m c s = Ret (r, m', c', s', e) ->
+  reset m' = reset m /\ csame c c'.
+Proof. exact mainR. Qed.
+
+(* pulled dry = as constructed, literally *)
+Theorem C01_engine_forgets : forall P blks f env m sl s outs m' c' s',
+  quiet m -> drains P blks f env m (LOrigin sl) s outs m' c' s' -> m' = m /\ c' = LOrigin None.
+Proof. exact engine_forgets. Qed.
+
+(* so the second of two inputs is processed by the very chain the first one met *)
+Theorem C01_engine_stream : forall P blks f env m a b s outsA mA cA sA outsB mB cB sB,
+  quiet m ->
+  drains P blks f env m (LOrigin (Some a)) s outsA mA cA sA ->
+  drains P blks f env mA (LOrigin (Some b)) sA outsB mB cB sB ->
+  drains P blks f env m (LOrigin (Some b)) sA outsB mB cB sB /\ mB = m.
+Proof. exact engine_stream. Qed.
+
+Print Assumptions C01_pull_invariant.
+Print Assumptions C01_pull_keeps_structure.
+Print Assumptions C01_engine_forgets.
+Print Assumptions C01_engine_stream.
+
+(* non-vacuity: what the builder produces for programs over these constructs is a pristine chain *)
 Definition tc0 := ValueM.mktc 2 3 4 5.
 Definition P0 := mkparams tc0 (fun _ => 1%N).
+
+Definition built (t : tree) : option mach :=
+  match build_program tc0 t with BOk (m, _) => Some m | BErr _ => None end.
 
 Definition run_tree (t : tree) : option (list event) :=
   match build_program tc0 t with
@@ -15,8 +59,14 @@ Definition run_tree (t : tree) : option (list event) :=
   | BErr _ => None
   end.
 
-(* (1, 2) [dup]  — a capture behind a two-stack producer *)
+(* (1, 2) [dup] ((3, 4) || 5) -- the shape that used to lose results (op_merge staying done) *)
+Definition prog1 : tree :=
+  TCat [TAlt [TConst 1 DDec; TConst 2 DDec]; TCapture (TRead (nm "dup"));
+        TOr [TAlt [TConst 3 DDec; TConst 4 DDec]; TConst 5 DDec]].
+
+Example C01_built_is_quiet : match built prog1 with Some m => quiet m | None => False end.
+Proof. vm_compute. repeat split; try reflexivity; try (intro; discriminate). Qed.
+
 Example C01_nonvacuous :
-  run_tree (TCat [TAlt [TConst 1 DDec; TConst 2 DDec]; TCapture (TRead (nm "dup"))])
-  = Some [EvOut [VSeq [VCst 1 DDec 0] 0; VCst 1 DDec 0]; EvOut [VSeq [VCst 2 DDec 0] 0; VCst 2 DDec 0]].
+  option_map (@List.length event) (run_tree prog1) = Some 4%nat.
 Proof. vm_compute. reflexivity. Qed.
